@@ -98,7 +98,7 @@ func c07MakeVal(kind int, tier int) c07Val {
 		v.d = time.Duration(v.i)
 		v.raw = map[string]interface{}{"duration": v.i}
 	case c07Regex:
-		rs := []string{"a.*", "^x$", "a/b", "'; DROP"}
+		rs := []string{"a.*", "^x$", "a/b", "'; DROP", `a\/b`, `^a\\/b$`, `\\`, "[/]", "/"}
 		v.s = rs[vfChoice(len(rs))]
 		v.raw = map[string]interface{}{"regex": v.s}
 	case c07Unbindable:
@@ -369,4 +369,38 @@ func vfH_C07_jsonnumber(tier int) {
 		vfAssert(vfDeepEqual(got, inlined), "C07/jsonnumber/parameter-equals-written-out-literal")
 	}
 	vfReach("C07_jsonnumber/ok")
+}
+
+// the set of bound values is the map given last: binding a parser a second time replaces the first set
+func vfH_C07_rebind(tier int) {
+	text := "SELECT a FROM m WHERE k = $x AND j = $y"
+	x1, y1, x2 := vfInt64(), vfInt64(), vfInt64()
+	second := map[string]interface{}{"x": x2}
+	full := vfChoice(3)
+	y2 := int64(0)
+	switch full {
+	case 1:
+		y2 = vfInt64()
+		second["y"] = y2
+	case 2:
+		second = nil
+	}
+	p := NewParser(strings.NewReader(text))
+	p.SetParams(map[string]interface{}{"x": x1, "y": y1})
+	p.SetParams(second)
+	q, err := p.ParseQuery()
+	if full != 1 {
+		vfAssert(err != nil, "C07/rebind/placeholder-missing-from-the-map-in-force-is-an-error")
+		vfReach("C07_rebind/rejected")
+		return
+	}
+	vfAssert(err == nil, "C07/rebind/accepted")
+	if err != nil {
+		return
+	}
+	want := c07Select(&BinaryExpr{Op: AND,
+		LHS: &BinaryExpr{Op: EQ, LHS: &VarRef{Val: "k"}, RHS: &IntegerLiteral{Val: x2}},
+		RHS: &BinaryExpr{Op: EQ, LHS: &VarRef{Val: "j"}, RHS: &IntegerLiteral{Val: y2}}})
+	vfAssert(len(q.Statements) == 1 && vfDeepEqual(q.Statements[0], Statement(want)), "C07/rebind/values-of-the-last-map-are-bound")
+	vfReach("C07_rebind/ok")
 }
